@@ -126,6 +126,11 @@ func (g *genv) run(c *tcase) (*problem, string) {
 		return prob(dirty, "panic|"+out.panicMsg, "%s(%v, %d bytes %s, reader %s) on %s panicked: %s", c.Path, c.R, len(c.O), c.Off, c.Mode, c.Backend, out.panicMsg), obs
 	}
 
+	if out.class == "transport-error" {
+		// the HTTP client could not tell the verdict; nothing can be concluded
+		return prob(true, "engine:transport-error", "%s on %s (%v, reader %s): HTTP client error %v; case not judged", c.Path, c.Backend, c.R, c.Mode, out.err), obs
+	}
+
 	// the good parts of a 3-part batch
 	if isMP(c.Path) && strings.Contains(c.Path, ":") {
 		pos := c.Path[strings.IndexByte(c.Path, ':')+1:]
@@ -154,7 +159,15 @@ func (g *genv) run(c *tcase) (*problem, string) {
 		}
 	}
 
-	desc := fmt.Sprintf("%s on %s: %d bytes (%s of the %d-byte content) offered as %v (%s) with reader %s", c.Path, c.Backend, len(c.O), c.Off, c.TLen, c.R, c.RefKind, c.Mode)
+	p := g.judge(c, exp, out, pre, preHas, lens0, hooks0)
+	if p != nil && !strings.HasPrefix(p.class, "panic") {
+		p.detail = fmt.Sprintf("%s on %s: %d bytes (%s of the %d-byte content) offered as %v (%s) with reader %s: ", c.Path, c.Backend, len(c.O), c.Off, c.TLen, c.R, c.RefKind, c.Mode) + p.detail
+	}
+	return p, obs
+}
+
+// judge compares the outcome of the upload of X with the oracle.
+func (g *genv) judge(c *tcase, exp int, out outcome, pre hs.Blob, preHas bool, lens0, hooks0 []int) *problem {
 	if out.accepted {
 		if exp == mustReject {
 			// acknowledged although the oracle demands a rejection: classify
@@ -183,7 +196,7 @@ func (g *genv) run(c *tcase) (*problem, string) {
 			case isErrMode(c.Mode):
 				class = "source-error-accepted"
 			}
-			return prob(dirty, class, "%s: acknowledged as received (%s, size %d) but must be rejected", desc, out.class, out.size), obs
+			return prob(dirty, class, "acknowledged as received (%s, size %d) but must be rejected", out.class, out.size)
 		}
 		// legitimately accepted: stored bytes = the offered bytes that match R
 		// (all of O; with a failing source possibly the complete blob delivered before the failure)
@@ -196,15 +209,15 @@ func (g *genv) run(c *tcase) (*problem, string) {
 			}
 		}
 		if out.size >= 0 && out.size != int64(len(want)) {
-			return prob(true, "accepted-size-differs", "%s: acknowledged with size %d, want %d", desc, out.size, len(want)), obs
+			return prob(true, "accepted-size-differs", "acknowledged with size %d, want %d", out.size, len(want))
 		}
 		if !preHas {
 			g.added++
 		}
 		g.ref.Put(hs.Blob{Name: shortName(c.R), Ref: c.R, Data: want})
 		if p := g.verifyRef(c.R, true, want); p != nil {
-			p.detail = desc + ": accepted, then " + p.detail
-			return p, obs
+			p.detail = "accepted, then " + p.detail
+			return p
 		}
 		// observers of the top store may only have been told about R
 		for i, w := range g.w {
@@ -213,28 +226,28 @@ func (g *genv) run(c *tcase) (*problem, string) {
 			}
 			for _, ev := range w.hooksSince(hooks0[i]) {
 				if ev.ref != c.R.String() && ev.ref != good1.Ref.String() && ev.ref != good2.Ref.String() {
-					return prob(false, "hub-foreign-ref", "%s: hub %s announced %s", desc, w.name, ev.ref), obs
+					return prob(false, "hub-foreign-ref", "hub %s announced %s", w.name, ev.ref)
 				}
 			}
 		}
-		return nil, obs
+		return nil
 	}
 
 	// rejected
 	if exp == mustAccept {
-		return prob(false, "valid-rejected", "%s: rejected (%s, err %v, errorText %q) although the bytes match the ref and are within the cap", desc, out.class, out.err, out.errorText), obs
+		return prob(false, "valid-rejected", "rejected (%s, err %v, errorText %q) although the bytes match the ref and are within the cap", out.class, out.err, out.errorText)
 	}
 	// ... the caller must have been told
 	if isMP(c.Path) && out.code == 200 && out.errorText == "" {
-		return prob(false, "rejected-silently", "%s: ref not listed as received but the response carries no errorText", desc), obs
+		return prob(false, "rejected-silently", "ref not listed as received but the response carries no errorText")
 	}
 	if c.Path == "receive" && !isErrMode(c.Mode) && supported(c.R) && !errors.Is(out.err, blobserver.ErrCorruptBlob) {
-		return prob(false, "reject-not-ErrCorruptBlob", "%s: rejected with %v, documented error is ErrCorruptBlob", desc, out.err), obs
+		return prob(false, "reject-not-ErrCorruptBlob", "rejected with %v, documented error is ErrCorruptBlob", out.err)
 	}
 	// ... and no trace may remain: the ref looks exactly as before
 	if p := g.verifyRef(c.R, preHas, pre.Data); p != nil {
-		p.detail = desc + ": rejected (" + out.class + "), yet " + p.detail
-		return p, obs
+		p.detail = "rejected (" + out.class + "), yet " + p.detail
+		return p
 	}
 	lens1 := g.leafLens()
 	goodAdded := 0
@@ -248,21 +261,21 @@ func (g *genv) run(c *tcase) (*problem, string) {
 	if goodAdded == 0 {
 		for i := range lens0 {
 			if lens1[i] != lens0[i] {
-				return prob(true, "trace-lower-store", "%s: rejected (%s), yet lower store #%d grew from %d to %d blobs", desc, out.class, i, lens0[i], lens1[i]), obs
+				return prob(true, "trace-lower-store", "rejected (%s), yet lower store #%d grew from %d to %d blobs", out.class, i, lens0[i], lens1[i])
 			}
 		}
 	}
 	for i, w := range g.w {
 		for _, ev := range w.hooksSince(hooks0[i]) {
 			if ev.ref == c.R.String() || goodAdded == 0 {
-				return prob(false, "trace-hub", "%s: rejected (%s), yet hub %s announced %s", desc, out.class, w.name, ev.ref), obs
+				return prob(false, "trace-hub", "rejected (%s), yet hub %s announced %s", out.class, w.name, ev.ref)
 			}
 		}
 	}
 	if supported(c.R) && len(g.rejected) < 6 && !preHas {
 		g.rejected = append(g.rejected, hs.Blob{Name: "rej-" + shortName(c.R), Ref: c.R, Data: c.O})
 	}
-	return nil, obs
+	return nil
 }
 
 // applyPre establishes the prestate of a case in a fresh world.
